@@ -77,3 +77,18 @@ Print Assumptions C12_no_panic_append.
 (* non-vacuity: the options the harness builds satisfy valid_call (DOS times decode to years >= 1980) *)
 Example C12_valid_example : forall d t dt, DateTime_from_msdos d t = Some dt -> time_ok dt.
 Proof. exact from_msdos_time_ok. Qed.
+
+(* ---------- which entries a program leaves in the writer's list (the list finish() renders: C01_finish_then_open).
+   For every program, every sink plan, every compressor/checksum: the names of the records after the program are the
+   names before, followed -- in call order -- by the name of every creating call (start_file, start_file_with_extra_data,
+   start_file_aligned, add_directory with its '/', add_symlink, raw copy) that returned Ok, possibly by the name of a
+   creating call that failed after its header was written, and by nothing else: no call removes, reorders or renames
+   an entry, and a successful creation is never lost.  (That a failed creation leaves the writer closed or
+   unfinishable is observed by the correspondence, not proved.) *)
+From Coq Require Import List.
+From ZipV Require Import Proofs.FaultSurface Proofs.CreatedNames.
+Theorem C12_created_names_partial : forall enc crc calls s s' results,
+  run_calls enc crc s calls = (s', results) ->
+  exists added, selected calls results added /\ names s' = names s ++ added.
+Proof. exact run_calls_names. Qed.
+Print Assumptions C12_created_names_partial.
